@@ -1608,3 +1608,79 @@ func init() {
 	registry["C11"].Meta.Rules["C11.20"] = "a sub-message is parsed from the bytes its size field declares: where a test of o + S against len(data) (S not a constant) stands before Parse*(data[o:...]), the slice is closed at its upper end (with data[o:] the datatype parser of an attribute message also takes the dataspace and the value as properties: decoding and re-encoding an opaque or variable-length attribute grows it on every cycle)"
 	registry["C11"].Rules = append(registry["C11"].Rules, func(c *Ctx, r *Result) { declaredExtentRule(c, r, "C11.20", 2) })
 }
+
+func init() {
+	registry["C15"].Meta.Rules["C15.17"] = "the heap's blocks are parsed as they are serialized: offset and width of every named field agree between writeDirectBlockAt / the indirect block writer and their parsers (C11.15 on the heap's pairs: a cursor advanced by the length size instead of the offset size after the heap header address shifts every object by 4 bytes in a file with 4-byte offsets)"
+	registry["C15"].Rules = append(registry["C15"].Rules, func(c *Ctx, r *Result) {
+		total := 0
+		for _, p := range layoutPairs {
+			if !strings.Contains(p[0], "fractal heap") || c.FnOpt(p[1]) == nil || c.FnOpt(p[2]) == nil {
+				continue
+			}
+			total += layoutAgreementRule(c, r, "C15.17", p[0], p[1], p[2])
+		}
+		if total < 3 {
+			r.Shortfall(c, "C15.17", fmt.Sprintf("C15.17: only %d fields compared", total))
+		}
+	})
+
+	registry["C15"].Meta.Rules["C15.18"] = "one notion of 'fits': every comparison of a block's free offset plus an object size with the block's capacity treats the exact fit as fitting - `<= capacity` where it asks whether the object fits, `> capacity` where it asks whether it does not (needsTransition with `<` sends a heap whose root block is filled exactly to an indirect root that cannot be loaded back)"
+	registry["C15"].Rules = append(registry["C15"].Rules, func(c *Ctx, r *Result) {
+		n := 0
+		for _, fn := range c.LibFuncs() {
+			if !strings.HasPrefix(c.Name(fn), "structures.WritableFractalHeap.") || fn.Blocks == nil {
+				continue
+			}
+			k := 0
+			instrs(fn, func(in ssa.Instruction) {
+				cmp, ok := in.(*ssa.BinOp)
+				if !ok {
+					return
+				}
+				isCap := func(v ssa.Value) bool {
+					call, isCall := stripConv(v).(*ssa.Call)
+					if !isCall {
+						return false
+					}
+					nm := c.calleeName(call)
+					return strings.HasSuffix(nm, ".directBlockCapacity") || strings.HasSuffix(nm, ".blockCapacity")
+				}
+				isNeed := func(v ssa.Value) bool {
+					add, isAdd := stripConv(v).(*ssa.BinOp)
+					if !isAdd || add.Op != token.ADD {
+						return false
+					}
+					kx, _ := fieldLoadKey(stripConv(add.X))
+					ky, _ := fieldLoadKey(stripConv(add.Y))
+					return strings.HasSuffix(kx, ".FreeOffset") || strings.HasSuffix(ky, ".FreeOffset")
+				}
+				op := cmp.Op
+				switch {
+				case isNeed(cmp.X) && isCap(cmp.Y):
+				case isNeed(cmp.Y) && isCap(cmp.X):
+					switch op {
+					case token.LSS:
+						op = token.GTR
+					case token.GTR:
+						op = token.LSS
+					case token.LEQ:
+						op = token.GEQ
+					case token.GEQ:
+						op = token.LEQ
+					}
+				default:
+					return
+				}
+				if op != token.LSS && op != token.GTR && op != token.LEQ && op != token.GEQ {
+					return
+				}
+				n++
+				k++
+				r.Check(op == token.LEQ || op == token.GTR, "C15.18", fmt.Sprintf("%s#exact-fit-fits-%d", c.Name(fn), k), c.InstrPos(cmp), "need "+op.String()+" capacity: the exact fit counts as fitting")
+			})
+		}
+		if n < 3 {
+			r.Shortfall(c, "C15.18", fmt.Sprintf("C15.18: only %d fit tests found", n))
+		}
+	})
+}
